@@ -81,27 +81,35 @@ func intMathFits(lhs, rhs int64, op ast.BinaryOperator) bool {
 // value. op must be a binary math operator. Returns an error for an attempt
 // to divide by zero.
 func executeFloatMath(lhs, rhs float64, op ast.BinaryOperator) (float64, error) {
+	var res float64
 	switch op {
 	case ast.BinaryAdd:
-		return lhs + rhs, nil
+		res = lhs + rhs
 	case ast.BinarySub:
-		return lhs - rhs, nil
+		res = lhs - rhs
 	case ast.BinaryMul:
-		return lhs * rhs, nil
+		res = lhs * rhs
 	case ast.BinaryDiv:
 		if rhs == 0 {
 			return 0, fmt.Errorf("%w: division by zero", ErrVerbose)
 		}
-		return lhs / rhs, nil
+		res = lhs / rhs
 	case ast.BinaryMod:
 		if rhs == 0 {
 			return 0, fmt.Errorf("%w: division by zero", ErrVerbose)
 		}
-		return math.Mod(lhs, rhs), nil
+		res = math.Mod(lhs, rhs)
 	default:
 		// We process only the binary math operators here.
 		return 0, fmt.Errorf("%w: %v is not a binary math operator", ErrInvalid, op)
 	}
+
+	if math.IsInf(res, 0) || math.IsNaN(res) {
+		// JSON has no representation for infinity or NaN.
+		return 0, fmt.Errorf("%w: numeric value out of range", ErrVerbose)
+	}
+
+	return res, nil
 }
 
 // mathOperandErr creates an error for an invalid operand to op. pos is the
